@@ -144,7 +144,13 @@ def run_case(ctx, case):
                     uid = max(cands, key=int) if act != 'destroy' else rng.choice(cands)
                     owner = live[uid]
                     before = rows_by_uid(srv.dump())
-                    r = srv.send([op_destroy(uid)], (owner, ['g1'] if owner == 'carol' else None), version)
+                    destroyer = (owner, ['g1'] if owner == 'carol' else None)
+                    pol = (before.get(int(uid), {}).get('managed_objects') or [None] * 9)[5]
+                    if pol == 'open' and rng.random() < 0.5:
+                        # the 'open' policy lets anybody destroy: use somebody who is not the owner
+                        destroyer = rng.choice([i for i in IDENTS if i[0] != owner and i[1] is None] or [destroyer])
+                        ctx.count('destroys_by_non_owner')
+                    r = srv.send([op_destroy(uid)], destroyer, version)
                     if r.error is None and r.ok():
                         ctx.count('destroys_acknowledged')
                         destroyed.add(uid)
